@@ -291,7 +291,7 @@ pub fn spec() -> Spec<Case> {
         rule: "a base history H (1-4 work blocks of human/AI edits ending in commits, incl. partial commits by file and hunk) and a generated transformation tau composed of 1-6 redundant steps at generated positions - extra human checkpoints, verbatim repetition of the preceding checkpoint 1-3 times, read-only git commands through the wrapper - and of splitting multi-line agent insertions into 2-4 consecutive partial writes each followed by a checkpoint of the same session; in half of the cases additionally a systematic transformation (an explicit human checkpoint after every human edit / every agent checkpoint repeated / a read-only command after every edit). Edits include a person throwing away everything the agents wrote in a file. H and tau(H) run in twin sandboxes with pinned dates (commit ids coincide); note attestation sets of every commit and `git-ai blame --json` of every file must be identical. non-trivial = AI checkpoints present and (an agent edit was split, or a step landed between an AI edit and a later human edit of the same file); distinct by case hash".into(),
         cases_quick: 280,
         cases_thorough: 4000,
-        shrink_iters: 50,
+        shrink_iters: 20,
         workers: 14,
         strategy: strategy().sboxed(),
         run,
